@@ -663,8 +663,12 @@ where
                     while this.write_buf.len() < *this.h1_write_buffer_size {
                         match body.as_mut().poll_next(cx) {
                             Poll::Ready(Some(Ok(item))) => {
-                                this.codec
-                                    .encode(Message::Chunk(Some(item)), this.write_buf)?;
+                                // an empty chunk is not the end of the body (only `None` is) but
+                                // the chunked encoder would turn it into the terminating chunk
+                                if !item.is_empty() {
+                                    this.codec
+                                        .encode(Message::Chunk(Some(item)), this.write_buf)?;
+                                }
                             }
 
                             Poll::Ready(None) => {
@@ -721,8 +725,12 @@ where
                     while this.write_buf.len() < *this.h1_write_buffer_size {
                         match body.as_mut().poll_next(cx) {
                             Poll::Ready(Some(Ok(item))) => {
-                                this.codec
-                                    .encode(Message::Chunk(Some(item)), this.write_buf)?;
+                                // an empty chunk is not the end of the body (only `None` is) but
+                                // the chunked encoder would turn it into the terminating chunk
+                                if !item.is_empty() {
+                                    this.codec
+                                        .encode(Message::Chunk(Some(item)), this.write_buf)?;
+                                }
                             }
 
                             Poll::Ready(None) => {
